@@ -6,7 +6,7 @@
    (Generated/C09Lock.v). *)
 From Apko Require Import Base.Prelude Base.Regex Base.C12Lib Model.Version Model.Lock Spec.LockSpec
   Proofs.LockProofs Generated.Regexes Generated.VersionConsts Generated.C09Lock.
-From Apko Require Model.Resolver Spec.ResolveSpec Proofs.ResolveTheorems Proofs.LockFixpointResolver.
+From Apko Require Model.Resolver Spec.ResolveSpec Proofs.ResolveTheorems Proofs.LockFixpointResolver Proofs.LockFixpointSuccess.
 From Coq Require Import Permutation Sorted.
 Open Scope string_scope. Open Scope list_scope.
 
@@ -164,8 +164,8 @@ Print Assumptions c09_lock_install.
    of its result is such a solution) and finds a solution of an exact lock that
    has one — whenever every member answers its own entry and nothing else in U
    is admitted by a member's entry, re-resolving the lock returns exactly the
-   members. Missing for the real code: the three hypotheses are not proved of
-   Model/Resolver.v (not committed at the time of writing). *)
+   members. For the resolver model (Model/Resolver.v) the three hypotheses are
+   examined one by one in c09_fixpoint_resolver_partial below. *)
 Theorem c09_fixpoint_partial : forall (U : list cand) (resolve : list string -> option (list cand)),
   (forall W S, resolve W = Some S -> solution U W S) ->
   (forall W S S', resolve W = Some S -> solution U W S' -> incl S' S -> incl S S') ->
@@ -178,35 +178,46 @@ Proof. exact fixpoint_partial. Qed.
 Print Assumptions c09_fixpoint_partial.
 
 (* the fixpoint against the RESOLVER MODEL (Model/Resolver.v = repo.go +
-   filterPackages; resolve U W dq0 scheds as in Properties/C02.v).  The three
-   hypotheses of c09_fixpoint_partial, looked at for that model inside the
-   envelope of c02_closed_partial (Spec.ResolveSpec.envelope_b) with members
-   whose names and versions survive the lock's  name=version  text (lockable):
+   filterPackages; resolve U W dq0 scheds as in Properties/C02.v), inside the
+   envelope of c02_closed_partial (Spec.ResolveSpec.envelope_b), for members
+   whose names and versions survive the lock's  name=version  text (lockable).
+   The three hypotheses of c09_fixpoint_partial, for that model:
      sound    PROVED: the result is closed (all four clauses, C02);
      minimal  PROVED as an upper bound (LockFixpointResolver.resolve_upper): a
               result holds nothing but listed providers of world entries and
               of positive dependencies of its members;
-     finds the solution of an exact lock   FALSE (c09_fixpoint_resolver_refuted).
-   Proved here: the lock world  name=version  of the result (lock_of, in the
-   order of the result) is again inside the envelope; envelope hypothesis
-   "nothing else in U is admitted by a member's entry" of c09_fixpoint_partial
-   holds by itself (one provider per name); and WHENEVER the lock resolves — for
-   every schedule — it resolves to exactly the members it was derived from.
-   PARTIAL: that the lock does resolve is not part of the statement; it is
-   false in general (next theorem) and not proved under the extra hypothesis
-   "no member is excluded by a member's conflict entry" (see notes/C09.md). *)
+     finds the solution of an exact lock: FALSE in general
+              (c09_fixpoint_resolver_refuted), PROVED (LockFixpointSuccess) when
+              every member answers its own entry (envelope hypothesis (i) of
+              c09_fixpoint_partial: untagged repository, parsable version), no
+              member is excluded by a member's conflict entry, and no
+              dependency of a member carries a version without a known operator.
+   Statement, for EVERY list L of the lock entries name=version of the members
+   (lists_lock_entries: any order — lock.go sorts them — repetitions allowed;
+   lock_world = lock_of of the members is one): L is again inside the envelope;
+   envelope hypothesis (ii) of c09_fixpoint_partial ("nothing else in U is
+   admitted by a member's entry") holds by itself (one provider per name);
+   WHENEVER L resolves — for every schedule — it resolves to exactly the
+   members it was derived from; and under the three extra hypotheses it DOES
+   resolve, for every schedule.
+   PARTIAL: only inside the envelope and under those hypotheses. *)
 Theorem c09_fixpoint_resolver_partial : forall (U : Resolver.universe) W dq0 scheds S,
   ResolveSpec.envelope_b U W = true -> Resolver.resolve U W dq0 scheds = Ok S ->
   (forall j, In j S -> LockFixpointResolver.lockable (nth j U Resolver.dummy_pkg)) ->
   ResolveSpec.Closed U W (ResolveTheorems.pkgs_of U S) /\
   LockFixpointResolver.lock_world U dq0 S = lock_of (List.map (LockFixpointResolver.cand_at U dq0) S) /\
-  ResolveSpec.envelope_b U (LockFixpointResolver.lock_world U dq0 S) = true /\
   (forall j k', In j S -> In k' (LockFixpointResolver.lock_universe U dq0) ->
      admitted (LockFixpointResolver.lock_universe U dq0) (lock_entry_of (LockFixpointResolver.cand_at U dq0 j)) k' ->
      k' = LockFixpointResolver.cand_at U dq0 j) /\
-  (forall scheds' S', Resolver.resolve U (LockFixpointResolver.lock_world U dq0 S) dq0 scheds' = Ok S' ->
-     forall j, In j S' <-> In j S).
-Proof. exact LockFixpointResolver.fixpoint_resolver_partial_lemma. Qed.
+  (forall L, LockFixpointSuccess.lists_lock_entries U dq0 S L ->
+     ResolveSpec.envelope_b U L = true /\
+     forall scheds' S', Resolver.resolve U L dq0 scheds' = Ok S' -> forall j, In j S' <-> In j S) /\
+  ((forall j, In j S -> admitted (LockFixpointResolver.lock_universe U dq0)
+                                 (lock_entry_of (LockFixpointResolver.cand_at U dq0 j)) (LockFixpointResolver.cand_at U dq0 j)) ->
+   LockFixpointSuccess.no_member_excluded U S -> LockFixpointSuccess.deps_wellformed U S ->
+   forall L, LockFixpointSuccess.lists_lock_entries U dq0 S L ->
+   forall scheds', exists S', Resolver.resolve U L dq0 scheds' = Ok S' /\ forall j, In j S' <-> In j S).
+Proof. exact LockFixpointSuccess.fixpoint_resolver_lemma. Qed.
 Print Assumptions c09_fixpoint_resolver_partial.
 
 (* REFUTED inside both envelopes (finding C09-F6, replayed on the real resolver
@@ -268,18 +279,18 @@ Proof. vm_compute. repeat split. Qed.
 Example c09_clean_example : clean_name "lib-x" /\ clean_version "1.2.3_rc1-r4".
 Proof. split; vm_compute; repeat split; discriminate. Qed.
 
-(* the hypotheses of c09_fixpoint_resolver_partial are satisfiable, and there the lock does resolve:
-   a -> b>0.5, v; b provides v=2; world [a v] *)
+(* the hypotheses of c09_fixpoint_resolver_partial (all of them, the three extra ones included) are
+   satisfiable: a -> b>0.5, v, !zz; b provides v=2; world [a v]; the lock [b=1.0 a=1.0] resolves to [b a] *)
 Example c09_fixpoint_resolver_example :
-  let U := [ResolveTheorems.wp "a" "1.0" ["b>0.5"; "v"] [] []; ResolveTheorems.wp "b" "1.0" [] ["v=2"] []] in
+  let U := LockFixpointSuccess.U_example in
   ResolveSpec.envelope_b U ["a"; "v"] = true /\ Resolver.resolve U ["a"; "v"] [] [] = Ok [1; 0]%nat /\
+  (forall j, In j [1; 0]%nat -> LockFixpointResolver.lockable (nth j U Resolver.dummy_pkg)) /\
+  (forall j, In j [1; 0]%nat -> admitted (LockFixpointResolver.lock_universe U [])
+       (lock_entry_of (LockFixpointResolver.cand_at U [] j)) (LockFixpointResolver.cand_at U [] j)) /\
+  LockFixpointSuccess.no_member_excluded U [1; 0]%nat /\ LockFixpointSuccess.deps_wellformed U [1; 0]%nat /\
   LockFixpointResolver.lock_world U [] [1; 0]%nat = ["b=1.0"; "a=1.0"] /\
-  Resolver.resolve U ["b=1.0"; "a=1.0"] [] [] = Ok [1; 0]%nat /\
-  (forall j, In j [1; 0]%nat -> LockFixpointResolver.lockable (nth j U Resolver.dummy_pkg)).
-Proof.
-  cbv zeta. split; [vm_compute; reflexivity|]. split; [vm_compute; reflexivity|]. split; [vm_compute; reflexivity|].
-  split; [vm_compute; reflexivity|]. intros j [<-|[<-|[]]]; (split; [|split]); vm_compute; repeat split; discriminate.
-Qed.
+  Resolver.resolve U ["b=1.0"; "a=1.0"] [] [] = Ok [1; 0]%nat.
+Proof. exact LockFixpointSuccess.fixpoint_example. Qed.
 
 (* the hypotheses of c09_fixpoint_partial are consistent, on a one-package universe *)
 Example c09_fixpoint_hypotheses_consistent :
